@@ -15,7 +15,7 @@ def standin(*props: str):
     return deco
 
 
-MODULES = ["keyspace", "bsprog", "tablecheck", "stackcheck", "parsecheck", "cfgcheck", "relational", "outputs"]
+MODULES = ["keyspace", "bsprog", "tablecheck", "stackcheck", "parsecheck", "cfgcheck", "relational", "outputs", "enginecheck"]
 IMPORT_ERRORS: Dict[str, str] = {}
 
 
